@@ -443,7 +443,7 @@ func judge(s *Sub, o *Obs) []Viol {
 			case len(at) == 1:
 				shape = "imported-once@" + at[0]
 			default:
-				shape = "never-imported"
+				shape = s.Shape // fixed trees record no attempt positions
 			}
 		}
 		add("module-ran-twice:"+shape, fmt.Sprintf("the body of module %q ran %d times within one evaluation", id, count[id]))
